@@ -217,6 +217,25 @@ def refreshed_operators(rep, rng, mesh, mi):
     from tdgl.solver.options import SparseSolver
     em = mesh.edge_mesh
     E = len(em.edges)
+    # the scalar operators as MeshOperators holds them for every sparse-solver option (the option only selects the storage format
+    # and the factorisation; the matrices must be the ones the builders return)
+    from tdgl.finite_volume import operators as _ops
+    ref_L = _ops.build_laplacian(mesh)[0]
+    for solver_ in SparseSolver:
+        try:
+            mo_ = MeshOperators(mesh, solver_, fixed_sites=np.array([], dtype=np.int64), fix_psi=True)
+            try:
+                mo_.build_operators()
+            except Exception:  # noqa: BLE001  (missing optional library, or the exactly singular Neumann factorisation)
+                pass
+            if getattr(mo_, "mu_laplacian", None) is None:
+                continue
+            dL = abs(sp.csr_matrix(mo_.mu_laplacian) - sp.csr_matrix(ref_L))
+            if dL.max() > 1e-12 * abs(ref_L).max():
+                rep.violation(f"the scalar Laplacian held by MeshOperators for sparse_solver={solver_.value!r} is not the Laplacian of the mesh "
+                              "(divergence of the gradient)", {"mesh": mi, "max_abs_diff": float(dL.max())})
+        except Exception as e:  # noqa: BLE001
+            rep.coverage.setdefault("sparse_solver_options_not_constructed", []).append(f"{solver_.value}: {type(e).__name__}")
     for fp in (False, True):
         # no pinned sites; fix_psi only selects the construction / refresh branch (every edge, the last one included, is refreshed)
         mo = MeshOperators(mesh, SparseSolver.SUPERLU, fixed_sites=np.array([], dtype=np.int64), fix_psi=fp)
